@@ -113,6 +113,50 @@ class Proto:
                 self.sites.append({"block": bi, "callee": callee_of(t), "eff": e, "direct": d, "t": t,
                                    "ln": t["ln"]})
         self.error_exits = {bi for bi, t in w.calls() if FROM_RESIDUAL in (callee_of(t) or "")}
+        self.locate_publisher()
+
+    def locate_publisher(self):
+        """The function that creates, fills and publishes the output file: the writer itself, or the unique
+        local helper it calls for that (parameters are mapped so the same obligations apply inside it)."""
+        w = self.w
+        self.pub, self.pubX, self.pubY, self.pubBuf, self.pub_call = w, self.X, self.Y, None, None
+        if any("CREATE" in s["direct"] for s in self.sites):
+            return
+        cands = [s for s in self.sites if {"CREATE", "WRITE"} <= s["eff"] and "GEN" not in s["eff"] and self.f.body(s["callee"]) is not None]
+        if len(cands) != 1:
+            return
+        s = cands[0]
+        h = self.f.body(s["callee"])
+        gen_callees = {x["callee"] for x in self.sites if "GEN" in x["eff"]}
+        px = py = pb = None
+        for i, a in enumerate(s["t"]["args"]):
+            p = identity_param(w, a)
+            if p == self.X:
+                px = i + 1
+            elif p == self.Y:
+                py = i + 1
+            else:
+                o = origins(w, a)
+                if any(d[0] == "call" and d[1] in gen_callees for d in o):
+                    pb = i + 1
+        if px is None or py is None:
+            return
+        self.pub, self.pubX, self.pubY, self.pubBuf, self.pub_call = h, px, py, pb, s
+        self.pub_sites = []
+        for bi, t in h.calls():
+            e = self.eff.of_call(t)
+            d = direct_effects(t)
+            if e or d:
+                self.pub_sites.append({"block": bi, "callee": callee_of(t), "eff": e, "direct": d, "t": t, "ln": t["ln"]})
+
+    def psites(self, eff, direct=True):
+        """effect sites inside the publisher function"""
+        src = self.sites if self.pub is self.w else self.pub_sites
+        k = "direct" if direct else "eff"
+        return [s for s in src if eff in s[k]]
+
+    def pdesc(self, s):
+        return "%s:%d call %s" % (self.pub.relfile(), s["ln"], s["callee"])
 
     def site_desc(self, s):
         return "%s:%d call %s" % (self.w.relfile(), s["ln"], s["callee"])
